@@ -154,14 +154,16 @@ void bindNew(Session &s, long eid, const Ent &e) {
 // attr stamp v of an entity of kind k <-> a bundle of kind-specific scalars
 void applyAttr(Ent &e, long v) {
     if (e.kind == "array") {
-        e.array.label("label" + std::to_string(v));
-        e.array.unit(v == 1 ? "mV" : "s");
-        e.array.expansionOrigin(1.5 * v);
-        e.array.polynomCoefficients(std::vector<double>{(double) v, 2.0});
+        // the data write comes first: in a read-only session it is the call that fails (a failing data set write, not only a
+        // failing attribute write, is part of what a session may have seen before it is closed)
         nix::NDSize sh = e.array.dataExtent();
         std::vector<double> d((size_t) sh.nelms());
         for (size_t i = 0; i < d.size(); i++) d[i] = 10.0 * v + i;
         e.array.setData(nix::DataType::Double, d.data(), sh, nix::NDSize(sh.size(), 0));
+        e.array.label("label" + std::to_string(v));
+        e.array.unit(v == 1 ? "mV" : "s");
+        e.array.expansionOrigin(1.5 * v);
+        e.array.polynomCoefficients(std::vector<double>{(double) v, 2.0});
     } else if (e.kind == "tag") {
         e.tag.position(std::vector<double>{(double) v, v + 0.5});
         e.tag.extent(std::vector<double>{1.0 * v});
